@@ -210,7 +210,12 @@ func VerifC02_DpstrfStructureF() {
 	n := verifChoose("n", 0, verifParam("pstsn", 3))
 	uplo := verifC02uplo("uplo")
 	blocked := verifParam("pstsblocked", 1) == 1 // Dpstrf dispatches to Dpstf2 at these sizes: one call covers both
-	lda := verifC02ld("ldaPad", n)
+	var lda int
+	if fp := verifParam("pstspad", -1); fp >= 0 {
+		lda = verifC02max(1, n) + fp // quick tier: one layout only
+	} else {
+		lda = verifC02ld("ldaPad", n)
+	}
 	a := verifC02mat("a", n, n, lda)
 	a0 := verifC02clone(a)
 	tol := verifFloat("tol")
